@@ -324,7 +324,9 @@ CLAIMED = {
         note="Trusted: Lean kernel; harness; the reference oracle. Not repaired: the natural repair contradicts the pinned test "
              "TestJournalReversion (asserts the dirty count after an intermediate flush). Partial: frames that contain a precompile call "
              "(where the property is false) are covered by the counterexamples, the correspondence and the oracle only.",
-        technique="Lean 4 counterexample proofs (decide on closed terms) + partial theorems + differential correspondence + reference-semantics oracle",
+        technique="Lean 4 proof (counterexamples by decide on closed terms; invariants on (state, journal) by mutual structural induction "
+                  "over nested call frames; per-address characterisation of Commit) + differential correspondence + "
+                  "reference-semantics oracle",
         ref="§7 C04"),
 }
 
